@@ -3,6 +3,8 @@ import asyncio
 import os
 import random
 
+from haiway import ctx
+
 from harness.legs import cfg_text, leg_m, leg_mutant, leg_r
 from harness.vloop import Falsy, VLoop
 
@@ -115,7 +117,8 @@ class TimeoutDriver:
 
         async def outer():
             try:
-                drv.got = ("val", await wrapped(1, k=2))
+                async with ctx.scope("caller"):     # the call is made from inside a scope: the function's task is not its member
+                    drv.got = ("val", await wrapped(1, k=2))
             except BaseException as e:  # noqa: BLE001
                 drv.got = ("exc", e)
             drv.got_at = loop.time()
